@@ -171,8 +171,10 @@ def h_overlay(x, levels, second, tkind=1):
     D0 = gen_doc(x, "d", levels, tk)
     U1 = gen_doc(x, "u", levels, tk)
     U2 = gen_doc(x, "w", [1] + [1] * (len(levels) - 1), tk) if second == "otherfile" else None
-    docs = {"DEFAULT": lambda: clone(D0), "USER1": lambda: clone(U1), "USER2": (lambda: clone(U2))}
+    docs = {"DEFAULT": lambda: clone(D0), "USER1": lambda: clone(U1), "USER2": (lambda: clone(U2)), "": (lambda: tk())}
     files = {"/cfg/app1/app1.toml": "USER1"}
+    if second == "emptyfile":
+        files["/cfg/app2/app2.toml"] = ""  # an existing user file of length 0
     if second == "otherfile":
         files["/cfg/app2/app2.toml"] = "USER2"
     fs = FS(files)
@@ -181,7 +183,10 @@ def h_overlay(x, levels, second, tkind=1):
     obl = [("effective-config-is-overlay", sym_equal(plain(r1), plain(overlay(D0, U1))))]
     obl.append(("existing-user-file-not-written", not fs.writes))
     r2 = CFG.load_config_toml("app2", "DEFAULT")
-    if second == "otherfile":
+    if second == "emptyfile":
+        obl.append(("empty-user-file-gives-defaults", sym_equal(plain(r2), plain(D0))))
+        obl.append(("existing-empty-user-file-not-written", not fs.writes and fs.files["/cfg/app2/app2.toml"] == ""))
+    elif second == "otherfile":
         obl.append(("second-load-is-overlay-of-its-own-file", sym_equal(plain(r2), plain(overlay(D0, U2)))))
         obl.append(("existing-user-files-not-written", not fs.writes))
     else:
@@ -295,7 +300,7 @@ def plain_toml(d):
 
 def harnesses(tier):
     hs = []
-    spec = [([2, 1], "nofile", 0), ([2, 1], "nofile", 1), ([2, 1], "otherfile", 2)]
+    spec = [([2, 1], "nofile", 0), ([2, 1], "nofile", 1), ([2, 1], "otherfile", 2), ([2, 1], "emptyfile", 1)]
     if tier == "thorough":
         spec += [([2, 1], "otherfile", 1), ([2, 1, 1], "nofile", 1), ([2, 1, 1], "otherfile", 2), ([2, 2], "nofile", 1), ([3, 1], "nofile", 0)]
     for levels, second, tk in spec:
